@@ -907,7 +907,11 @@ def run_unit(unit: dict):
                     small["history"] = list(case.get("history", [])) + case["calls"][:k]
                 else:
                     pid_ = v["call"]["id"]
-                    small["var"] = dict(case["var"], probes=[pid_] if str(pid_) in case["calls"] else [])
+                    if case["var"]["mode"] == "threads":
+                        # an interleaving is a property of ALL the jobs of the run: keep them
+                        small["var"] = dict(case["var"])
+                    else:
+                        small["var"] = dict(case["var"], probes=[pid_] if str(pid_) in case["calls"] else [])
                 viols.append({"clause": v["clause"], "signature": v["signature"], "detail": v["detail"], "case": small})
     return stats, viols
 
@@ -968,7 +972,7 @@ def minimise(case: dict, clause: str, sig: str, budget: int = 40) -> dict:
                     cur = c
     # shrink the document line by line
     key = "calls"
-    if cur["kind"] != "grid" and not cur["var"]["probes"]:
+    if cur["kind"] != "grid" and (not cur["var"]["probes"] or cur["var"]["mode"] == "threads"):
         cur["minimise_runs"] = runs
         return cur
     call = cur["calls"][0] if cur["kind"] == "grid" else cur["calls"][str(cur["var"]["probes"][0])]
